@@ -375,7 +375,23 @@ impl Database {
             }
             crate::sql::ast::InsertSource::Select(select_stmt) => {
                 let select_rows = self.execute_select_internal(select_stmt)?;
-                select_rows.into_iter().map(|row| row.values).collect()
+                // as for VALUES: one slot per table column, filled through the column list
+                select_rows
+                    .into_iter()
+                    .map(|select_row| {
+                        let mut row = vec![OwnedValue::Null; columns.len()];
+                        if let Some(ref col_indices) = insert_col_indices {
+                            for (value, &col_idx) in select_row.values.into_iter().zip(col_indices) {
+                                row[col_idx] = value;
+                            }
+                        } else {
+                            for (slot, value) in row.iter_mut().zip(select_row.values) {
+                                *slot = value;
+                            }
+                        }
+                        row
+                    })
+                    .collect()
             }
             crate::sql::ast::InsertSource::Default => {
                 bail!("DEFAULT VALUES insert not supported")
